@@ -37,9 +37,12 @@ def gen_case(rng, i, tier):
         n = rng.choice([3, 4, 5, 6, 8] if tier == "quick" else [3, 4, 5, 6, 8, 12, 20])
         t = trees.random_tree(rng, n, rng.choice(["random", "caterpillar", "balanced"]))
         mode, dates = c06.gen_dates(rng, n)
+        if rng.random() < 0.3:       # whole-number ages, several tips at the present (they will be written as integers)
+            mode, dates = "whole_ages", [float(rng.choice([0, 0, 1, 2, 3])) for _ in range(n)]
+            dates[rng.randrange(n)] = 0.0
         c.update(tree=t, n=n, dates=dates, date_mode=mode, B=None, ops=[])
         # whole-number dates written as integers in the specification
-        c["int_dates"] = all(float(d).is_integer() for d in dates) and rng.random() < 0.6
+        c["int_dates"] = all(float(d).is_integer() for d in dates) and rng.random() < 0.75
         oldest = max(c06.leaf_heights(dates))
         if kind == "ratio":
             c["x"] = [[rng.uniform(0.05, 0.95) for _ in range(n - 2)] + [oldest + math.exp(rng.uniform(-2, 2))]]
